@@ -553,3 +553,34 @@ def borrow(prog, tier, module_name, rules, new_rule, why):
             out.append(o)
     anf.reset()
     return out
+
+
+def invert_hazard_obligations(prog, rule, rels):
+    """One obligation per source file: no `~(comparison)` whose operands may all be plain Python numbers (lints.invert_of_python_bool)."""
+    from .. import lints
+    from ..model import iter_functions
+    from ..term import Resolver
+    out = []
+    for rel_ in rels:
+        mi = prog.module(rel_)
+        numpy_names = {k for k, v in mi.imports.items() if str(v).startswith(("numpy", "scipy"))}
+        hits, n_fn, n_inv = [], 0, 0
+        for qn, fn in iter_functions(mi.tree):
+            n_fn += 1
+            n_inv += sum(1 for x in ast.walk(fn) if isinstance(x, ast.UnaryOp) and isinstance(x.op, ast.Invert))
+            try:
+                rz = Resolver(fn, prog, mi)
+            except Exception:
+                rz = None
+            for line, text, why in lints.invert_of_python_bool(fn, rz, numpy_names):
+                hits.append((qn, line, text, why))
+        msg = ""
+        if hits:
+            qn, line, text, why = hits[0]
+            msg = f"`{text}` in {qn} (line {line}): {why}" + (f" (+{len(hits) - 1} more)" if len(hits) > 1 else "")
+        out.append(struct_ob(rule, rel_, not hits, msg, rel_, hits[0][1] if hits else 0,
+                             slots={"functions_scanned": n_fn, "inversions": n_inv, "hits": len(hits)}))
+    ex = ast.parse("def f(self):\n    std = self.var ** 0.5 / self.num\n    if ~(self.mu - std < self.rate < self.mu + std):\n        pass\n").body[0]
+    if not lints.invert_of_python_bool(ex, Resolver(ex)):
+        raise AnalysisError("invert-of-bool lint lost its positive example")
+    return out
